@@ -4,10 +4,14 @@ use std::path::Path;
 
 type RemoveHook = Box<dyn Fn(&Path) -> Option<std::io::Result<()>>>;
 type StageHook = Box<dyn Fn(&str) -> anyhow::Result<()>>;
+type RenameHook = Box<dyn Fn(&Path, &Path) -> Option<std::io::Result<()>>>;
 thread_local! {
     static REMOVE_HOOK: RefCell<Option<RemoveHook>> = const { RefCell::new(None) };
     static STAGE_HOOK: RefCell<Option<StageHook>> = const { RefCell::new(None) };
+    static RENAME_HOOK: RefCell<Option<RenameHook>> = const { RefCell::new(None) };
 }
+/// Fault seam for the `rename` used by the real (non-test) publish entry point.
+pub fn set_rename_hook(h: Option<RenameHook>) { RENAME_HOOK.with(|c| *c.borrow_mut() = h); }
 pub fn set_remove_hook(h: Option<RemoveHook>) { REMOVE_HOOK.with(|c| *c.borrow_mut() = h); }
 pub fn set_stage_hook(h: Option<StageHook>) { STAGE_HOOK.with(|c| *c.borrow_mut() = h); }
 pub fn stage(name: &str) -> anyhow::Result<()> {
@@ -16,6 +20,10 @@ pub fn stage(name: &str) -> anyhow::Result<()> {
 /// Stand-in for `std::fs` inside `commit_staging_dir_impl`.
 pub mod fs {
     use std::path::Path;
+    pub fn rename<P: AsRef<Path>, Q: AsRef<Path>>(src: P, dst: Q) -> std::io::Result<()> {
+        let injected = super::RENAME_HOOK.with(|c| c.borrow().as_ref().and_then(|h| h(src.as_ref(), dst.as_ref())));
+        match injected { Some(r) => r, None => std::fs::rename(src, dst) }
+    }
     pub fn remove_dir_all<P: AsRef<Path>>(p: P) -> std::io::Result<()> {
         let injected = super::REMOVE_HOOK.with(|c| c.borrow().as_ref().and_then(|h| h(p.as_ref())));
         match injected { Some(r) => r, None => std::fs::remove_dir_all(p) }
